@@ -1,4 +1,4 @@
-import WfProofs.StateStoreSnap
+import WfProofs.StateStoreHist
 /-!
 # C19 — state stores implement the same state semantics, with isolated snapshots
 
@@ -179,3 +179,195 @@ theorem C19_clear_is_default :
 
 example : (Sql.step (Sql.step (Sql.init [[("a", .int 0)], [("c", .str "c0")]] (.typed 1)) (.set "a" (.int 9))).1 .clear).1.row
     = some [("a", .int 0), ("c", .str "c0")] := by rfl
+
+/-! ## Every history: no guard on the bodies, interleavings of snapshot handling, invariants -/
+
+/-- without any guard: for every operation sequence — bodies that raise included — the in-memory
+store returns, and holds, exactly what a nested dict *edited in place* returns and holds
+(`Spec.stepLive`: the `edit_state` block hands out the dict itself) -/
+theorem C19_refines_dict_memory_every_history (sc : Schema) (ty : Ty) (ops : List Op) :
+    runOuts Mem.step (Mem.init sc ty) ops = runOuts Spec.stepLive (Spec.init sc ty) ops ∧
+    (runState Mem.step (Mem.init sc ty) ops).root = (runState Spec.stepLive (Spec.init sc ty) ops).root :=
+  ⟨(memSimLive_run ops _ _ (memSim_init sc ty)).1, (memSimLive_run ops _ _ (memSim_init sc ty)).2.root⟩
+
+/-- the dict edited in place and the transactional dict return the same result for every
+operation, and are the same machine on everything but an `edit_state` whose body raises -/
+theorem C19_live_dict_differs_only_on_raising_bodies (s : Spec) (op : Op) :
+    (Spec.stepLive s op).2 = (Spec.step s op).2 ∧
+    ((∀ muts, op = .edit muts → (runMuts s.root muts).2 = none) → Spec.stepLive s op = Spec.step s op) :=
+  ⟨stepLive_out s op, stepLive_eq_step s op⟩
+
+/-- the unguarded statement is about something: after a body that raised, memory follows the dict
+edited in place, not the transactional one -/
+example :
+    runOuts Mem.step (Mem.init [] .dict) [.edit [.setKey "z" (.int 1), .raise], .get "z" (some .null)]
+      = runOuts Spec.stepLive (Spec.init [] .dict) [.edit [.setKey "z" (.int 1), .raise], .get "z" (some .null)] ∧
+    runOuts Spec.stepLive (Spec.init [] .dict) [.edit [.setKey "z" (.int 1), .raise], .get "z" (some .null)]
+      = [.err .bodyError, .val (.int 1)] ∧
+    runOuts Spec.step (Spec.init [] .dict) [.edit [.setKey "z" (.int 1), .raise], .get "z" (some .null)]
+      = [.err .bodyError, .val .null] := ⟨rfl, rfl, rfl⟩
+
+/-- for every operation sequence the two stores return the same values up to *and including* the
+first `edit_state` whose body raises (`pre`: operations whose bodies do not raise, `op`: any
+operation, `rest`: anything) -/
+theorem C19_backends_agree_until_a_body_raises (sc : Schema) (ty : Ty) (pre : List Op) (op : Op) (rest : List Op)
+    (h : bodiesOk (Mem.init sc ty) pre = true) :
+    (runOuts Mem.step (Mem.init sc ty) (pre ++ op :: rest)).take (pre.length + 1) =
+    (runOuts Sql.step (Sql.init sc ty) (pre ++ op :: rest)).take (pre.length + 1) :=
+  backends_agree_prefix sc ty pre op rest h
+
+example : bodiesOk (Mem.init [] .dict) [.set "a" (.int 1), .edit [.incr "a" 2]] = true ∧
+    (runOuts Mem.step (Mem.init [] .dict)
+      ([.set "a" (.int 1), .edit [.incr "a" 2]] ++ .edit [.setKey "z" (.int 1), .raise] :: [.get "z" (some .null)])).take 3
+      = [.none, .none, .err .bodyError] := ⟨by decide, rfl⟩
+
+/-- snapshot isolation over interleavings: take ANY operation sequence without a write-back —
+`get_state`s, top-level mutations of the snapshot held, and store operations in any order — and
+erase the snapshot mutations: every other operation returns what it returned before, and the store
+holds the same at the end.  For every state of either store. -/
+theorem C19_snapshot_mutations_unobservable (ops : List Op) (h : ∀ op ∈ ops, isWriteBack op = false) :
+    (∀ m : Mem,
+      outsAt (fun op => !isMutSnap op) ops (runOuts Mem.step m ops) =
+        runOuts Mem.step m (ops.filter fun op => !isMutSnap op) ∧
+      (runState Mem.step m ops).root = (runState Mem.step m (ops.filter fun op => !isMutSnap op)).root) ∧
+    (∀ q : Sql,
+      outsAt (fun op => !isMutSnap op) ops (runOuts Sql.step q ops) =
+        runOuts Sql.step q (ops.filter fun op => !isMutSnap op) ∧
+      (runState Sql.step q ops).abs = (runState Sql.step q (ops.filter fun op => !isMutSnap op)).abs) :=
+  ⟨fun _ => mem_erase_mutSnap ops rfl rfl h, fun _ => sql_erase_mutSnap ops rfl rfl rfl h⟩
+
+/-- an interleaving: the snapshot is mutated between store operations, and re-taken -/
+example :
+    outsAt (fun op => !isMutSnap op)
+      [.set "a" (.int 1), .getState, .mutSnap "a" (.int 99), .set "b" (.int 2), .mutSnap "b" (.int 7), .get "a" none,
+       .getState, .mutSnap "c" .null, .get "c" (some (.str "no"))]
+      (runOuts Mem.step (Mem.init [] .dict)
+        [.set "a" (.int 1), .getState, .mutSnap "a" (.int 99), .set "b" (.int 2), .mutSnap "b" (.int 7), .get "a" none,
+         .getState, .mutSnap "c" .null, .get "c" (some (.str "no"))]) =
+    [.none, .state ⟨.dict, [("a", .int 1)]⟩, .none, .val (.int 1),
+     .state ⟨.dict, [("a", .int 1), ("b", .int 2)]⟩, .val (.str "no")] := by rfl
+
+/-- reads cannot be observed either: erase the `get`s from any operation sequence (write-backs and
+snapshot handling included) and nothing else changes.  In SQLite the first read *writes* — it
+inserts the row with the type's defaults — and that write is invisible. -/
+theorem C19_reads_unobservable (ops : List Op) :
+    (∀ m : Mem,
+      outsAt (fun op => !isGet op) ops (runOuts Mem.step m ops) = runOuts Mem.step m (ops.filter fun op => !isGet op) ∧
+      runState Mem.step m ops = runState Mem.step m (ops.filter fun op => !isGet op)) ∧
+    (∀ q : Sql,
+      outsAt (fun op => !isGet op) ops (runOuts Sql.step q ops) = runOuts Sql.step q (ops.filter fun op => !isGet op) ∧
+      (runState Sql.step q ops).abs = (runState Sql.step q (ops.filter fun op => !isGet op)).abs ∧
+      (runState Sql.step q ops).held = (runState Sql.step q (ops.filter fun op => !isGet op)).held) :=
+  ⟨fun m => mem_erase_get ops m, fun _ => sql_erase_get ops rfl rfl rfl rfl⟩
+
+/-- the read really writes: the row exists afterwards -/
+example : (Sql.init [[("a", .int 0)]] (.typed 0)).row = none ∧
+    (Sql.step (Sql.init [[("a", .int 0)]] (.typed 0)) (.get "a" none)).1.row = some [("a", .int 0)] := ⟨rfl, rfl⟩
+
+/-- "until it is written back", for every history: after any `pre`, a snapshot taken by `get_state`
+and written back later installs exactly the state at the time of `get_state` plus the caller's own
+top-level mutations — whatever the store did in between (`ops`: any gets / sets / set_states /
+clears / edits / snapshot mutations) is replaced -/
+theorem C19_write_back_installs_snapshot (sc : Schema) (ty : Ty) (pre ops : List Op)
+    (h : ∀ op ∈ ops, noSnapTaking op = true) :
+    (runState Mem.step (Mem.init sc ty) (pre ++ .getState :: (ops ++ [.writeBack]))).root =
+      snapAfter (runState Mem.step (Mem.init sc ty) pre).root ops ∧
+    (runState Sql.step (Sql.init sc ty) (pre ++ .getState :: (ops ++ [.writeBack]))).abs =
+      snapAfter (runState Sql.step (Sql.init sc ty) pre).abs ops :=
+  ⟨mem_writeBack_installs sc ty pre ops h, sql_writeBack_installs sc ty pre ops h⟩
+
+example :
+    (runState Sql.step (Sql.init [] .dict)
+      ([.set "a" (.int 1)] ++ .getState :: ([.set "b" (.int 2), .mutSnap "c" (.int 3), .clear] ++ [.writeBack]))).abs =
+    ⟨.dict, [("a", .int 1), ("c", .int 3)]⟩ ∧
+    snapAfter ⟨.dict, [("a", .int 1)]⟩ [.set "b" (.int 2), .mutSnap "c" (.int 3), .clear] = ⟨.dict, [("a", .int 1), ("c", .int 3)]⟩ :=
+  ⟨rfl, rfl⟩
+
+/-- the model type of the state — and of any snapshot the caller holds — is the declared one in every
+reachable state of both stores, whatever the operations were and whether bodies raised -/
+theorem C19_type_never_changes (sc : Schema) (ty : Ty) (ops : List Op) :
+    ((runState Mem.step (Mem.init sc ty) ops).root.ty = ty ∧
+      ∀ h, (runState Mem.step (Mem.init sc ty) ops).held = some h → h.ty = ty) ∧
+    ((runState Sql.step (Sql.init sc ty) ops).ty = ty ∧ (runState Sql.step (Sql.init sc ty) ops).abs.ty = ty ∧
+      ∀ h, (runState Sql.step (Sql.init sc ty) ops).held = some h → h.ty = ty) :=
+  ⟨mem_ty_inv sc ty ops, sql_ty_inv sc ty ops⟩
+
+example : (runState Mem.step (Mem.init [[("a", .int 0)], [("c", .str "c0")]] (.typed 1))
+    [.setState (.ancestor 0) [("a", .int 5)], .setState .dictState [], .getState, .edit [.raise]]).root.ty = .typed 1 := by rfl
+
+/-- a typed state never gains or loses a field: in every reachable state of both stores the fields
+are the declared ones, in declaration order — provided each `set_state` argument carries exactly the
+fields of its class (`opWf`; pydantic guarantees it when the instance is built) -/
+theorem C19_typed_fields_fixed (sc : Schema) (n : Nat) (ops : List Op)
+    (h : ∀ op ∈ ops, opWf sc (.typed n) op = true) :
+    keys (runState Mem.step (Mem.init sc (.typed n)) ops).root.data = keys (fieldsOf sc n) ∧
+    keys (runState Sql.step (Sql.init sc (.typed n)) ops).abs.data = keys (fieldsOf sc n) :=
+  ⟨mem_keys_inv sc n ops h, sql_keys_inv sc n ops h⟩
+
+example : (∀ op ∈ [Op.set "nofield" .null, .setState (.ancestor 0) [("a", .int 5)], .edit [.setKey "zz" .null, .incr "a" 1],
+      .setState .same [("a", .int 1), ("c", .null)], .clear],
+      opWf [[("a", .int 0)], [("c", .str "c0")]] (.typed 1) op = true) ∧
+    keys (fieldsOf [[("a", .int 0)], [("c", .str "c0")]] 1) = ["a", "c"] := ⟨by decide, rfl⟩
+
+/-- the guard is needed in the model (an ill-formed instance replaces the state wholesale) -/
+example : keys (runState Mem.step (Mem.init [[("a", .int 0)]] (.typed 0)) [.setState .same [("zz", .null)]]).root.data = ["zz"] := by rfl
+
+/-- set-then-get on the stores themselves, in every state (reachable or not) -/
+theorem C19_set_then_get_on_stores (p : String) (v : Json) (d : Option Json) :
+    (∀ m : Mem, (Mem.step m (.set p v)).2 = .none → (Mem.step (Mem.step m (.set p v)).1 (.get p d)).2 = .val v) ∧
+    (∀ q : Sql, (Sql.step q (.set p v)).2 = .none → (Sql.step (Sql.step q (.set p v)).1 (.get p d)).2 = .val v) :=
+  ⟨fun m => mem_set_then_get m p v d, fun q => sql_set_then_get q p v d⟩
+
+example : (Sql.step (Sql.init [] .dict) (.set "l.x.0" (.arr [.null]))).2 = .none := by rfl
+
+/-- a successful `set(p, v)` leaves every path under a *different* top-level key alone: `get(q)`
+returns what it returned before, in every state of both stores -/
+theorem C19_set_leaves_other_keys (p q : String) (v : Json) (d : Option Json) (hq : q.isEmpty = false)
+    (hne : (splitPath p).head? ≠ (splitPath q).head?) :
+    (∀ m : Mem, (Mem.step m (.set p v)).2 = .none →
+      (Mem.step (Mem.step m (.set p v)).1 (.get q d)).2 = (Mem.step m (.get q d)).2) ∧
+    (∀ s : Sql, (Sql.step s (.set p v)).2 = .none →
+      (Sql.step (Sql.step s (.set p v)).1 (.get q d)).2 = (Sql.step s (.get q d)).2) :=
+  ⟨fun m h => mem_set_frame m p q v d h hq hne, fun s h => sql_set_frame s p q v d h hq hne⟩
+
+example : ("b.c" : String).isEmpty = false ∧ (splitPath "a.0.x").head? ≠ (splitPath "b.c").head? := by decide
+
+/-- persistence round trips — the store object replaced by one restored from its own `to_dict`
+payload (memory: `from_dict`; SQLite: reconnect to the row, SQL copy of the row into a new run, or
+migration of an in-memory payload into a new run) — can be inserted anywhere in any operation
+sequence, snapshot handling and write-backs included: every store operation returns what it returns
+without them, and the store (and the snapshot the caller holds) is the same at the end -/
+theorem C19_persist_restore_unobservable (ops : List OpP) :
+    (∀ m : Mem,
+      outsAtOps ops (runOutsP Mem.stepP m ops) = runOuts Mem.step m (ops.filterMap OpP.op?) ∧
+      runStateP Mem.stepP m ops = runState Mem.step m (ops.filterMap OpP.op?)) ∧
+    (∀ q : Sql,
+      outsAtOps ops (runOutsP Sql.stepP q ops) = runOuts Sql.step q (ops.filterMap OpP.op?) ∧
+      (runStateP Sql.stepP q ops).abs = (runState Sql.step q (ops.filterMap OpP.op?)).abs ∧
+      (runStateP Sql.stepP q ops).held = (runState Sql.step q (ops.filterMap OpP.op?)).held) :=
+  ⟨fun m => mem_erase_persist ops m, fun _ => sql_erase_persist ops rfl rfl rfl rfl⟩
+
+/-- the round trips do something to the machine: migrating a store that has no row yet writes the
+defaults, copying a run without a row gives a run without a row -/
+example :
+    (runStateP Sql.stepP (Sql.init [[("a", .int 0)]] (.typed 0)) [.persist .copyRun]).row = none ∧
+    (runStateP Sql.stepP (Sql.init [[("a", .int 0)]] (.typed 0)) [.persist .migrate]).row = some [("a", .int 0)] ∧
+    runOutsP Sql.stepP (Sql.init [] .dict)
+      [.op (.set "a" (.int 1)), .persist .migrate, .op .getState, .persist .copyRun, .op (.mutSnap "a" (.int 2)),
+       .persist .reopen, .op .writeBack, .op (.get "a" none)] =
+      [.none, .none, .state ⟨.dict, [("a", .int 1)]⟩, .none, .none, .none, .none, .val (.int 2)] := ⟨rfl, rfl, rfl⟩
+
+/-! ## Source shape of the code paths the machines follow -/
+
+/-- the path helpers, `merge_state` / `clear` and the SQLite methods still have the dispatch the
+machines `Mem`, `Sql` (and the walkers `child` / `assign` / `setLoop` / `rootSet`) were written
+along — branch order of `traverse_path_step` / `assign_path_step`, exception classes that turn a
+missing segment into "create `{}`" or "default", depth test, replace / merge / reject order and the
+argument-free dumps of `merge_state`, fresh instance on `clear`, `set` = `edit_state` around
+`set_by_path`, first read inserts the row, save = upsert, typed rows dumped with `mode="json"` only
+(definitions regenerated from the source by `harness/gen/statestore_shape.py` on every run) -/
+theorem C19_source_shape_walkers : walkersShape = true ∧ mergeShape = true ∧ sqliteShape = true := by decide
+
+/-- the shapes are tables, not constants `true`: they talk about these lists -/
+example : GenStateStoreShape.traverseDispatch.length = 4 ∧ GenStateStoreShape.mergeBranches.length = 3 ∧
+    GenStateStoreShape.setCatches.length ≥ 4 := by decide
